@@ -22,9 +22,14 @@ AWKWARD_METHODS = ["type", "range", "func", "success", "p", "err", "ctx", "r", "
 AWKWARD_THROWS = ["e", "p", "err", "ctx", "r", "x", "err2", "v", "type", "result"]
 
 SCALARS = ["i32", "string", "bool", "i64", "double", "binary", "i8", "i16", "E"]
-STRUCTS = ["In"]
+STRUCTS = ["In", "Dflt"]
 CONTAINERS = ["list<i32>", "map<string,In>", "set<string>", "list<In>", "map<i32,list<string>>", "list<binary>",
               "map<E,i64>", "set<i16>"]
+
+
+ARG_DEFAULTS = {"bool": {"id": "true"}, "i8": {"i": 5}, "i16": {"i": 300}, "i32": {"i": 7}, "i64": {"i": 9},
+                "double": {"d": "1.5"}, "string": {"s": "hi"}, "binary": {"s": "hi"}, "E": {"i": 2}}
+# (an identifier default such as E.B in an argument list crashes thriftgo: see probe `argident`)
 
 
 def _ty(s, prefix):
@@ -37,7 +42,7 @@ def _ty(s, prefix):
             return {"n": t["n"], "v": fix(t["v"])}
         if t["n"] == "map":
             return {"n": "map", "k": fix(t["k"]), "v": fix(t["v"])}
-        if t["n"] in ("E", "In", "X1"):
+        if t["n"] in ("E", "In", "X1", "Dflt"):
             return {"n": prefix + t["n"]}
         return t
     return fix(t)
@@ -77,7 +82,13 @@ def make_function(i, shape, name, prefix, local_types, rot):
         while nm in used:
             nm += "x"
         used.add(nm)
-        args.append(F(ids[j], "default", _ty(rot.next("arg" + tag, allt), prefix), nm))
+        tn = rot.next("arg" + tag, allt)
+        # every few arguments: `required`, or a declared default value (scalars)
+        req = rot.next("argreq", ["default", "default", "default", "required", "default", "default", "default"])
+        dv = None
+        if tn in ARG_DEFAULTS and rot.next("argdef", [0, 0, 1, 0, 1]):
+            dv = ARG_DEFAULTS[tn]
+        args.append(F(ids[j], req, _ty(tn, prefix), nm, dv))
     throws = None
     if shape["nt"] > 0:
         excs = [prefix + "X1", "X2"] if local_types is not None else [prefix + "X1", prefix + "X1b"]
@@ -133,6 +144,8 @@ def main_program(shapes):
         {"k": "enum", "name": "E", "values": [{"name": "A", "value": 1}, {"name": "B", "value": None},
                                               {"name": "C", "value": 5}]},
         {"k": "struct", "name": "In", "fields": [F(1, "default", T("i32"), "x"), F(2, "optional", T("string"), "y")]},
+        {"k": "struct", "name": "Dflt", "fields": [F(1, "default", T("i32"), "x", {"i": 3}), F(2, "optional", T("string"), "y", {"s": "q"}),
+                                                   F(3, "optional", T("In"), "inner")]},
         {"k": "exception", "name": "X1", "fields": [F(1, "default", T("string"), "msg"), F(2, "required", T("i32"), "code")]},
         {"k": "exception", "name": "X1b", "fields": [F(1, "optional", T("In"), "inner")]},
         {"k": "service", "name": "Root", "extends": None, "functions": fns("Root", "", None, False)},
@@ -145,7 +158,13 @@ def main_program(shapes):
         {"k": "exception", "name": "X2", "fields": [F(1, "required", T("i32"), "code"), F(2, "optional", {"n": "c.In"}, "inner"),
                                                     F(3, "default", T("map", T("string"), T("i32")), "m")]},
         {"k": "service", "name": "Local", "extends": None, "functions": fns("Local", "c.", loc, False)},
-        {"k": "service", "name": "Derived", "extends": "Local", "functions": fns("Derived", "c.", loc, True)},
+        {"k": "service", "name": "Derived", "extends": "Local", "functions": fns("Derived", "c.", loc, True) + [
+            # `success` everywhere it can legally go (a throws field named success on a non-void method does not compile)
+            {"name": "success", "oneway": False, "ret": None, "args": [F(1, "default", T("i32"), "success")],
+             "throws": [F(1, "default", T("X2"), "success")]},
+            {"name": "Success", "oneway": False, "ret": T("i32"), "args": [F(1, "default", T("i32"), "Success")],
+             "throws": [F(1, "default", {"n": "c.X1"}, "Success")]},
+        ]},
         {"k": "service", "name": "Svc", "extends": "b.Base", "functions": fns("Svc", "c.", loc, True)},
     ]
     return {"files": [
@@ -179,6 +198,13 @@ def probe_programs():
         "undersc": dict(prog=prog([{"name": "_result", "oneway": False, "ret": i32, "args": [F(1, "default", i32, "_args")],
                                     "throws": [F(1, "default", T("X1"), "_e")]}]),
                         what="method named `_result` (Go name starts with an underscore)"),
+        "argident": dict(prog={"files": [{"path": "a.thrift", "namespaces": [{"lang": "go", "name": "u"}], "defs": [
+            {"k": "enum", "name": "E", "values": [{"name": "A", "value": 1}, {"name": "B", "value": None}]},
+            {"k": "const", "name": "K", "type": i32, "value": {"i": 4}},
+            {"k": "service", "name": "S", "extends": None, "functions": [
+                {"name": "f", "oneway": False, "ret": None, "throws": None,
+                 "args": [F(1, "default", T("E"), "e", {"id": "E.B"}), F(2, "default", i32, "k", {"id": "K"})]}]}]}]},
+                         what="argument default written as an identifier (enum value / constant)"),
         "succvoid": dict(prog=prog([{"name": "success", "oneway": False, "ret": None, "args": [F(1, "default", i32, "success")],
                                      "throws": [F(1, "default", T("X1"), "success")]},
                                     {"name": "Success", "oneway": False, "ret": i32, "args": [F(1, "default", i32, "Success")],
@@ -215,8 +241,17 @@ def rpc_schema(prog):
             an = "%s.%s_args" % (d["name"], fn["name"])
             afields = []
             for a in fn.get("args") or []:
-                afields.append({"id": a["id"], "req": a.get("req", "default"), "name": a["name"],
-                                "type": rs.stype(f["path"], a["type"]), "def": schemalib.NONE, "w": 0})
+                st = rs.stype(f["path"], a["type"])
+                de = schemalib.NONE
+                if a.get("default") is not None:
+                    at = rs.atom(f["path"], st, a["default"])
+                    if at is None:
+                        raise ValueError("default of argument %s not expressible" % a["name"])
+                    de = {"a": at}
+                req = a.get("req", "default")
+                # thriftgo: "optional keyword is ignored in argument lists"
+                afields.append({"id": a["id"], "req": "default" if req == "optional" else req, "name": a["name"],
+                                "type": st, "def": de, "w": 0})
             sc["structs"][an] = {"kind": "struct", "fields": afields}
             rn = None
             throws = []
